@@ -207,11 +207,15 @@ Qed.
     [ropt ld o s sol cost i t]: [t] is a solution of the [i]-th pair whose cost is
     minimal over all enumerated pairs and all their solutions.
 
-    The theorems are statements about the enumerated pairs; that these are all the
-    refinements, each once up to the order of children, is [C08_refinement_pairs_*]
-    below (with [C08_binarize_complete], [C08_binarize_nodup]).  That the binary
-    optimum does not depend on the order of children is the remaining link to
-    "every binary refinement regardless of child order": see OPEN_GOALS. *)
+    The theorems of this block are statements about the enumerated pairs; that these are
+    all the refinements, each once up to the order of children, is [C08_refinement_pairs_*]
+    below (with [C08_binarize_complete], [C08_binarize_nodup]).  That the binary optimum
+    does not depend on the order of children -- the link to "every binary refinement
+    regardless of child order" -- is proved in the next block ([C08_child_order_invariance],
+    [C08_ext_optimum_all_refinements*], Proofs/PolyInvProofs.v), and the reader-facing form
+    over SOLUTIONS of arbitrary refinement pairs is the last block
+    ([C08_returned_solutions_optimal_over_all_refinements_*], Proofs/PolyBoundProofs.v).
+    Nothing of this clause is left open. *)
 From SR Require Import Base.Ext Model.Entry Model.Recon Model.Poly Proofs.PathFacts Proofs.ThlProofs
   Proofs.SpfsFinal Proofs.UspfsProofs Proofs.UspfsFinal Proofs.PolyProofs.
 
@@ -324,3 +328,97 @@ Proof. exact ext_optimum_all_refinements_unordered. Qed.
 Print Assumptions C08_ext_optimum_all_refinements_unordered.
 
 Example C08_all_refinements_example := all_refinements_example.
+
+(** ** reader-facing form: a bound over SOLUTIONS of ARBITRARY refinement pairs (Proofs/PolyBoundProofs.v)
+
+    [ropt_all ld o s solp costp i t]: [t] is a solution of the [i]-th enumerated refinement pair
+    and costs no more than any solution [t'] of any pair [(ob', sb')] of binary refinements of the
+    two trees (children in any order) that converts to a binary input [p'].  No totalised quantity
+    ([spfs_binopt], [orders_of], [pair_opt]) occurs in these statements.
+    Ordered: [spfs_solp true p t] = valid ordered labelling of [p] for one of ITS compatible root
+    orders, any species mapping; [spfs_costp c p t] = the evaluator's total cost.
+    Unordered: [uspfs_solp true p t] = valid canonical unordered labelling; by
+    [C03_canonical_suffices] the bound extends to all valid labellings
+    ([C08_ext_optimum_refinements_unordered] + [C05_uspfs_all_exact_global]). *)
+From SR Require Import Model.Spfs Model.Uspfs Proofs.PolyBoundProofs.
+
+Theorem C08_returned_solutions_optimal_over_all_refinements_ordered : forall c ld o s,
+  nn (c_hgt c) -> NoDup (names (rlabels s)) -> coherent_ord c -> poly_wf nonempty_syn ld o s ->
+  exists e, spfs_poly c RALL ld o s = Some e /\ NoDup (tags e) /\
+    forall i lt, In (i, lt) (tags e) <->
+      exists p, refinement_input ld o s i p /\ spfs_solp true p lt /\
+        forall ob' sb' p' lt', refines o ob' -> refines s sb' -> pair_input ld (ob', sb') = Some p' ->
+          spfs_solp true p' lt' -> ele (spfs_costp c p lt) (spfs_costp c p' lt').
+Proof. exact ext_all_refinements_solutions_ordered. Qed.
+Print Assumptions C08_returned_solutions_optimal_over_all_refinements_ordered.
+
+Theorem C08_returned_solutions_optimal_over_all_refinements_ordered_any : forall c ld o s,
+  nn (c_hgt c) -> NoDup (names (rlabels s)) -> coherent_ord c -> poly_wf nonempty_syn ld o s ->
+  exists e, spfs_poly c RANY ld o s = Some e /\
+    ((tags e = [] /\ forall ob' sb' p' lt, refines o ob' -> refines s sb' ->
+                       pair_input ld (ob', sb') = Some p' -> ~ spfs_solp true p' lt) \/
+     (exists i lt, tags e = [(i, lt)] /\ ropt_all ld o s (spfs_solp true) (spfs_costp c) i lt)).
+Proof. exact ext_all_refinements_solutions_ordered_any. Qed.
+Print Assumptions C08_returned_solutions_optimal_over_all_refinements_ordered_any.
+
+Theorem C08_returned_solutions_optimal_over_all_refinements_unordered : forall c ld o s,
+  nn (c_hgt c) -> NoDup (names (rlabels s)) -> ucoherent c -> poly_wf any_syn ld o s ->
+  exists e, uspfs_poly c RALL ld o s = Some e /\ NoDup (tags e) /\
+    forall i t, In (i, t) (tags e) <->
+      exists p, refinement_input ld o s i p /\ uspfs_solp true p t /\
+        forall ob' sb' p' t', refines o ob' -> refines s sb' -> pair_input ld (ob', sb') = Some p' ->
+          uspfs_solp true p' t' -> ele (uspfs_costp c p t) (uspfs_costp c p' t').
+Proof. exact ext_all_refinements_solutions_unordered. Qed.
+Print Assumptions C08_returned_solutions_optimal_over_all_refinements_unordered.
+
+Theorem C08_returned_solutions_optimal_over_all_refinements_unordered_any : forall c ld o s,
+  nn (c_hgt c) -> NoDup (names (rlabels s)) -> ucoherent c -> poly_wf any_syn ld o s ->
+  exists e i t, uspfs_poly c RANY ld o s = Some e /\ tags e = [(i, t)] /\
+    ropt_all ld o s (uspfs_solp true) (uspfs_costp c) i t.
+Proof. exact ext_all_refinements_solutions_unordered_any. Qed.
+Print Assumptions C08_returned_solutions_optimal_over_all_refinements_unordered_any.
+
+(* the new optimality notion is the old one ([ropt]: optimal over the ENUMERATED pairs) *)
+Theorem C08_ropt_iff_ropt_all_ordered : forall c ld o s, nn (c_hgt c) -> NoDup (names (rlabels s)) ->
+  forall i t, coherent_ord c -> poly_wf nonempty_syn ld o s ->
+  (ropt ld o s (spfs_solp true) (spfs_costp c) i t <-> ropt_all ld o s (spfs_solp true) (spfs_costp c) i t).
+Proof. exact ropt_ropt_all_ordered. Qed.
+Print Assumptions C08_ropt_iff_ropt_all_ordered.
+
+Theorem C08_ropt_iff_ropt_all_unordered : forall c ld o s, nn (c_hgt c) -> NoDup (names (rlabels s)) ->
+  forall i t, ucoherent c -> poly_wf any_syn ld o s ->
+  (ropt ld o s (uspfs_solp true) (uspfs_costp c) i t <-> ropt_all ld o s (uspfs_solp true) (uspfs_costp c) i t).
+Proof. exact ropt_ropt_all_unordered. Qed.
+Print Assumptions C08_ropt_iff_ropt_all_unordered.
+
+(** ** the totalisation defaults of the definitions used above are never taken
+
+    [pair_opt ld binopt pr] reads "[pair_input ld pr = None]" (a leaf without name / data, a species
+    name that is not found) as +inf: every ENUMERATED pair converts ([C08_enumerated_pair_defined]).
+    [orders_of O] reads "[Spfs.root_orders O = None]" (an exception while enumerating the root orders)
+    as "no order", and [spfs_binopt] / [uspfs_binopt] read "[spfs] / [uspfs] returned [None]" (an
+    exception while decoding or evaluating) as +inf: on every pair of binary refinements that converts,
+    the root orders are enumerated, the binary solver returns an entry, and the three quantities are
+    its value. *)
+Theorem C08_enumerated_pair_defined : forall o s ld Q pr, poly_wf Q ld o s -> In pr (input_binarize o s) ->
+  exists p, pair_input ld pr = Some p.
+Proof. exact enumerated_pair_defined. Qed.
+Print Assumptions C08_enumerated_pair_defined.
+
+Theorem C08_refinement_pair_defined_ordered : forall c rp ld o s ob' sb', nn (c_hgt c) ->
+  poly_wf nonempty_syn ld o s -> NoDup (names (rlabels s)) -> refines o ob' -> refines s sb' ->
+  forall p', pair_input ld (ob', sb') = Some p' ->
+  exists orders e, Spfs.root_orders (snd p') = Some orders /\ orders_of (snd p') = orders /\
+    spfs (fst p') c rp true orders (snd p') = Some e /\ spfs_binopt c rp true p' = val e /\
+    pair_opt ld (spfs_binopt c rp true) (ob', sb') = val e.
+Proof. exact refinement_pair_defined_ordered. Qed.
+Print Assumptions C08_refinement_pair_defined_ordered.
+
+Theorem C08_refinement_pair_defined_unordered : forall c rp ld ob' sb' p', nn (c_hgt c) ->
+  pair_input ld (ob', sb') = Some p' ->
+  exists E, uspfs (fst p') c rp true (snd p') = Some E /\ uspfs_binopt c rp true p' = val E /\
+    pair_opt ld (uspfs_binopt c rp true) (ob', sb') = val E.
+Proof. exact refinement_pair_defined_unordered. Qed.
+Print Assumptions C08_refinement_pair_defined_unordered.
+
+(* validity and finite cost of every returned solution, any policy, any unit costs: C04_valid_poly_* *)
